@@ -1,28 +1,45 @@
 """C02 — Every model-matrix column holds exactly the product its name denotes.
 
-Correspondence streams (engine `c02`, model `Model/Materialize.lean` + `Model/Columns.lean`):
+Correspondence streams (engine `c02`; models `Model/NestedMatrix.lean` + `Model/FactorEncode.lean` for factor values of
+any shape, and `Model/Materialize.lean` + `Model/Columns.lean`, the flat model that C03 also runs):
 
-* `matrix`   the real `materializer.get_model_matrix(formula, …)` against `Model.buildStructure` /
-             `Model.buildMatrix`. The harness forwards the evaluated factors AS THE IMPLEMENTATION
-             computed them (kind, spans_intercept, and for both rank settings the object stored in
-             `encoded_cache` with the metadata `_encode_evaled_factor` consults) plus the term list;
-             the model returns the per-term scoped terms, the column names and the exact values.
-             A second, `typed`, sub-stream stores the numeric columns in every numpy storage dtype (int8..int64,
-             uint8..uint64, float16/32/64) with values that need the full width of that dtype (up to 2**31-1,
-             2**32-1, 2**52; 11/24/53 significant bits), so that a column that is silently narrowed on one output
-             path (e.g. stored as float32 in the sparse encoder) no longer equals what its label denotes.
+* `matrix`   the real `materializer.get_model_matrix(formula, …)` against `Model.Nest.nbuildStructure` /
+             `nbuildMatrix`. For a NUMERICAL factor the harness forwards the evaluated values and their
+             `FactorValuesMetadata` only (a column, a nested dict, a DataFrame, a 2-d array, …): `as_columns`, `map_dict`
+             (reserved `__` keys), the metadata re-wrapping (`encoded=True`), the drop-field step and the recursive
+             flattening with per-dict format templates are computed by the model. For a plain CATEGORICAL data column it
+             forwards the categories and per-row codes from the CASE and the model computes the dummy coding (one
+             indicator per level) and its metadata itself. A literal's value is computed by the model from its text.
+             Only for encoders the model does not re-implement (`C(…)` closures, contrasts other than the default, dict-
+             valued categorical factors) the object stored in `encoded_cache` is forwarded, as a value tree with metadata.
+             The model returns the per-term scoped terms, the column names and the exact values. When the encodings are
+             flat the SAME case is also evaluated by the flat model (`matrix` op of the engine) and compared.
+             Sub-streams: `typed` (every numpy storage dtype with full-width values), `wrap` (known finding C02-F1),
+             `shaped` (factors that are not a single column: nested dicts, reserved keys, DataFrames, 2-d arrays with /
+             without column_names, custom format / format_reduced / drop_field / spans_intercept, pre-encoded values,
+             `None`, dict-valued categorical factors, poly / bs inside interactions; matrices without any column), every
+             output type of each materializer (`narwhals` included) and every supported input container (DataFrame, dict
+             of columns / of scalars, numpy record array, narwhals wrapper).
+* `shape-error` malformed stream: a factor on which `_encode_evaled_factor` must raise (array with more than two
+             dimensions, `column_names` shorter than the array, `spans_intercept` without / with an absent `drop_field`):
+             model and code must raise the same exception class (ValueError / IndexError / KeyError).
+* `encode`   `_encode_evaled_factor` of PandasMaterializer / NarwhalsMaterializer directly on random value trees (depth
+             <= 3) with random metadata on every level, for both rank settings, against `Model.Nest.encodeFactor`.
 * `columns`  `_get_columns_for_term` of the base class / PandasMaterializer / NarwhalsMaterializer
-             on random factor dictionaries against `Model.columnsBase` / `Model.columnsFast`.
+             on random factor dictionaries against `Model.columnsBase` / `columnsFast` and their path-labelled twins.
 * `simplify` `_simplify_scoped_terms` on random lists of scoped terms against `Model.simplify`.
 * `badname`  malformed stream: a formula that names a column that does not exist.
 
 Oracle (implementation only): rank reduction off -> the whole matrix is recomputed from the DATA
-(indicator per level in level order, numeric expressions re-evaluated by numpy), term by term,
+(indicator per level in level order, numeric expressions re-evaluated by numpy, shaped factors from their own
+independent description with the naming rule `name[key][key]…` / their format templates), term by term,
 row-wise Kronecker order with the first factor fastest, times the literal scale; rank reduction on
 -> every emitted column is recomputed from the implementation's own encoded factors named by its
 scoped term, the scale must be the product of the term's literals, treatment-coded columns must be
 level indicators and the encoded columns of a numeric factor must be the data column / the re-evaluated expression
 its label names (exactly, for every storage dtype and output type). The intercept must be a column of ones named `Intercept`.
+`encode`: the flattened dict is recomputed from the case description by `spec_encode`, written from the documentation of
+`FactorValuesMetadata` / `as_columns` independently of the Lean model.
 """
 from __future__ import annotations
 
@@ -36,21 +53,50 @@ import pandas
 PROPERTY = "C02"
 ENGINE = "c02"
 REQUIRED_THEOREMS = [
+    # flat model (Model/Materialize.lean; also run by C03)
     "scale_preserved",
     "column_is_product",
     "intercept_column",
     "fastpath_eq_base",
     "kron_full",
     "label_string_faithful",
+    # factor values of any shape (Model/NestedMatrix.lean + Model/FactorEncode.lean)
+    "nested_scale_preserved",
+    "nested_column_is_product",
+    "nested_intercept_column",
+    "nested_fastpath_eq_base",
+    "nested_kron_full",
+    "kron_full_from_data",
+    "nested_label_string_faithful",
+    # encoder stages, term order, repeated names
+    "encode_items_are_leaves",
+    "encode_names_complete",
+    "default_format_name",
+    "numerical_encoding_is_identity",
+    "drop_field_step",
+    "categorical_full_encoding",
+    "categorical_reduced_encoding",
+    "label_parts_in_data",
+    "cluster_by_numerical_order",
+    "matrix_is_concatenation",
+    "duplicate_names_dictionary",
 ]
 TRUSTED = [
-    "modelled, not verified: factor evaluation and the encoders themselves (pandas.get_dummies, contrast matrices, "
-    "stateful transforms); their results enter the model as data (the encoded columns per factor and rank setting, "
-    "with spans_intercept / drop_field / format metadata), read from materializer.factor_cache / encoded_cache",
-    "str.format on the factor-name templates is a parameter: templates are pre-parsed into literal/{name}/{field} segments by the harness",
+    "modelled, not verified: factor EVALUATION (column lookup, Python expressions, stateful transforms) - the evaluated values "
+    "and their FactorValuesMetadata enter the model as data, read from materializer.factor_cache; kind inference is C08's",
+    "encoders the model does not re-implement - `C(...)` encoder closures, contrasts other than the default dummy coding, "
+    "dict-valued categorical factors - enter as data: the object stored in encoded_cache per rank setting, as a value tree "
+    "with the metadata the encoder attached. Everything else of `_encode_evaled_factor` is computed by the model: as_columns, "
+    "map_dict, re-wrapping, drop-field step, recursive flattening; numerical factors and plain categorical data columns "
+    "(dummy coding from the categories and codes of the CASE) need no forwarded encoding at all",
+    "`pandas.Series(...).astype('category')` / recoding to recorded levels (which categories a column has, in which order) is "
+    "not modelled: the categories are those of the case (declared order, else sorted distinct values); C08 owns that step",
+    "str.format on the factor-name templates is a parameter: templates are pre-parsed into literal/{name}/{field} segments by "
+    "the harness (templates outside that fragment are not generated); the default template and the two treatment-coding "
+    "templates are regenerated from the live classes (Gen/FactorMeta.lean)",
     "numpy/scipy element-wise multiplication and scalar scaling are modelled as exact rational arithmetic; inputs are "
-    "small integers / dyadic rationals so the float results are exact (cases using contr.poly / contr.diff are compared with "
-    "relative tolerance 1e-9)",
+    "small integers / dyadic rationals so the float results are exact (cases using contr.poly / contr.diff / poly / bs are "
+    "compared with relative tolerance 1e-9; the VALUES poly and bs produce are C12/C13's business, here they are data)",
     "typed stream: numpy's arithmetic IN THE STORAGE DTYPE (type promotion, integer wrap-around, float16/float32 rounding of "
     "products) is not modelled; the generator keeps every term inside an exact-arithmetic envelope (`in_envelope`: every "
     "expression value fits each storage dtype it reads; row by row the product of all factor magnitudes and the literal "
@@ -60,20 +106,31 @@ TRUSTED = [
     "the model, which stays exact: `classify` absorbs a case only if every wrong cell is precisely wrap-around of an "
     "all-integer term (`wrapped_cells`), every other oracle check passes with those cells left out, and the model "
     "disagrees with the implementation on such cells only, holding the exact product there",
-    "not modelled: nested dictionaries inside an encoded factor (nothing in formulaic produces them), "
-    "`metadata.encoded=True` pre-encoded factors, reuse of a stored `structure` (C04/C09), null handling / drop_rows (C06)",
+    "input containers (dict, record array, narwhals wrapper) and output assembly (`_combine_columns`: DataFrame / ndarray / "
+    "csc / narwhals frame) are exercised and judged by the oracle; the model sees them only through `asdict` (narwhals "
+    "assembles non-sparse output through a {name: column} dict)",
+    "not modelled: reuse of a stored `structure` (C04/C09), null handling / drop_rows (C06; pre-encoded values are not "
+    "row-dropped by the code - cases with nulls are not generated here), numeric literals outside `digits[.digits]` "
+    "(none exist in the formula grammar), `Factor(kind=...)` overrides of programmatically built factors",
 ]
 ASSUMPTIONS = [
-    "column_is_product reads values row by row under the hypothesis that every encoded column has one entry per retained row (numpy enforces equal shapes; the correspondence compares the column lengths of model and implementation)",
-    "printed names are Python dict keys: when two columns of one term (or, for pandas output, of the whole matrix) print "
-    "to the same name the later one replaces the earlier one's values; this is modelled (dictSet) and kron_full is "
-    "stated through the same dictionary semantics",
+    "(nested_)column_is_product reads values row by row under the hypothesis that every encoded (leaf) column has one entry per retained row (numpy enforces equal shapes; the correspondence compares the column lengths of model and implementation)",
+    "printed names are Python dict keys: when two columns of one factor's encoding, of one term (or, through the narwhals "
+    "dict, of the whole matrix) print to the same name the later one replaces the earlier one's values in place; this is "
+    "modelled (nitemSet / ndictSet), (nested_)kron_full is stated through the same dictionary semantics and "
+    "duplicate_names_dictionary says what that dictionary holds",
+    "a dict's keys are pairwise distinct (Python guarantees it); `Leaf` / `LeafAt` are stated by membership, so no theorem needs the hypothesis; categorical_*_encoding assume that no two levels PRINT alike (`str(level)`)",
+    "(nested_)kron_full: a term lists each factor once (`Term.__init__` removes repeats)",
+    "cluster_by_numerical_order: `numericalKey` succeeds for every term (every factor of the formula is in the factor cache, as after `_evaluate_factor`)",
 ]
 RULE = (
     "matrix: random frames (1-6 rows quick, up to 40 thorough; 1-3 categorical columns with 1-4 levels incl. unused "
     "levels, object or Categorical dtype; 1-3 numeric columns over small integers/dyadics), formulas of 1-5 terms over "
-    "names, C(x[, contr.*]), I(), {}, a two-column transform, 0-3 numeric literal scalings per term (distinct values, any position), interactions up to degree 3, "
-    "intercept on/off; x ensure_full_rank x output in pandas/numpy/sparse x cluster_by x materializer pandas/narwhals. "
+    "names, C(x[, contr.*]), I(), {}, a two-column transform, 0-3 numeric literal scalings per term (every literal form of the "
+    "grammar: 2, 0.5, .5, 1., 00, ...; distinct texts, any position), interactions up to degree 3, "
+    "intercept on/off; x ensure_full_rank x output in pandas/numpy/sparse(/narwhals for the narwhals materializer) x cluster_by "
+    "x materializer pandas/narwhals x input container (DataFrame; 15%: dict of columns or scalars, record array, narwhals wrapper) "
+    "x history (12%: the same materializer instance has already produced another matrix over the same data with another output type / rank setting). "
     "typed matrix (n/2 extra cases, materializer pandas/narwhals evenly): the same frames/formulas with every plain numeric column stored as a random numpy dtype "
     "(int8/16/32/64, uint8/16/32/64, float16/32/64; 32-bit and wider weighted up) holding full-width values (magnitudes up to "
     "the dtype's maximum, 2**52 for 64-bit; n/4 dyadics for floats; small values mixed in), terms cut back to the "
@@ -81,8 +138,16 @@ RULE = (
     "wrap (max(4, n/45) cases + 2 corpus cases): a typed case with one extra all-numeric term over int8/16/32 / uint8/16/32 "
     "columns (computing dtype <= 32 bits) whose exact product leaves the integer range for some row; judged by the same "
     "oracle (exact product required), they fail on the current code and are classified as known finding C02-F1. "
+    "shaped (n/3): 1-4 terms, the first factor of most terms is a factor that is not a single column (13 shapes: nested "
+    "dict depth 2 and 3 with int keys, reserved __ keys, DataFrame, 2-d array with/without column_names, custom format, inner "
+    "FactorValues with its own format, keys that print alike, pre-encoded, spans_intercept with drop_field and format_reduced, "
+    "None, dict of categorical columns) or, on frames with 5+ rows and distinct values, poly(x,2|3) / bs(x,df=4); 4%: a matrix "
+    "without columns (`0`, `0 + none(x)`). shape-error (max(6, n/30)): one malformed factor in a random formula. "
+    "encode (n/3): top-level column / dict (depth <= 3) / DataFrame / 2-d array (column_names none, right, short, long) / 3-d "
+    "array; keys from 13 labels (str, int, reserved, printing alike); metadata on the top level and 40% of inner dicts "
+    "(8 format templates, format_reduced incl. empty, reduced, spans_intercept, drop_field present / absent / missing, encoded). "
     "columns: 1-4 factor dicts with 1-3 entries. simplify: up to 7 scoped terms over 4 factors. "
-    "non-trivial = matrix case with an interaction term; distinct by canonical JSON"
+    "non-trivial = matrix case with an interaction term, encode case that is not a single column; distinct by canonical JSON"
 )
 
 # ----------------------------------------------------------------------------- helpers
@@ -157,6 +222,11 @@ def cat_atoms(v):
 def atom_semantics(expr, data):
     """normalised factor expr -> ('cat', var) | ('num', {field: array}) | None (unknown)"""
     cats, nums = data["cat"], data["num"]
+    sh = shape_of(expr)
+    if sh is not None and sh[0] in SHAPES and sh[1] in nums:
+        return ("num", "shape")
+    if sh is not None and sh[0] == "catd" and sh[1] in cats:
+        return ("catd", sh[1])
     for v in cats:
         if expr in cat_atoms(v):
             return ("cat", v)
@@ -175,7 +245,9 @@ def atom_semantics(expr, data):
 # level labels are data: strings, integers from 1 and from 0, booleans, strings with "" first (the reference level of
 # a factor is its first level whatever its label is - falsy labels included)
 LEVEL_POOLS = [["a", "b", "c", "d"], ["u", "v", "w", "z"], ["lo", "mid", "hi", "top"], [1, 2, 3, 4], ["a b", "c-d", "e.f", "g"],
-               [0, 1, 2, 3], [0, 1, 2, 3], [False, True], ["", "x", "y", "z"]]
+               [0, 1, 2, 3], [0, 1, 2, 3], [False, True], ["", "x", "y", "z"],
+               # level labels that look like reserved keys of dict-valued factors: every level keeps its indicator
+               ["__a", "b", "__", "_c"]]
 
 
 def gen_data(rng, nrows, ncat=None, nnum=None):
@@ -237,7 +309,9 @@ def gen_atom(rng, data, used):
     return src.format(v=v, w=w)
 
 
-LITERALS = ["2", "3", "0.5", "2.5", "4", "5", "0.0"]
+# every numeric-literal form of the formula grammar (`digits`, `digits.digits`, `.digits`, `digits.`); the model computes
+# a literal's value from its TEXT (Model.Nest.parseLiteral), the oracle with Python's own Fraction
+LITERALS = ["2", "3", "0.5", "2.5", "4", "5", ".5", "1.", "0.25", "10", "00", "0.0"]
 
 
 def gen_formula(rng, data, accept=None):
@@ -506,7 +580,7 @@ def gen_wrap_matrix_case(rng, tier):
         for name in cols:
             src = rng.choice(["{v}", "{v}", "I({v}+1)", "{{{v}*2}}"]).format(v=name)
             atoms.append(src if in_envelope([src], data) else name)
-        lits = rng.sample(INT_LITERALS, rng.choice([1, 2])) if len(cols) == 1 else rng.sample(LITERALS[:-1], rng.choice([0, 0, 1, 2]))
+        lits = rng.sample(INT_LITERALS, rng.choice([1, 2])) if len(cols) == 1 else rng.sample([l for l in LITERALS if Fraction(l) != 0], rng.choice([0, 0, 1, 2]))
         for lit in lits:
             atoms.insert(rng.randrange(len(atoms) + 1), lit)
         if leaves_integer_range(atoms, data):
@@ -536,7 +610,7 @@ def gen_matrix_case(rng, tier):
     maxrows = 6 if tier == "quick" else 40
     nrows = rng.randint(1, maxrows) if rng.random() < 0.8 else rng.randint(1, 6)
     data = gen_data(rng, nrows)
-    return dict(
+    c = dict(
         kind="matrix",
         data=data,
         formula=gen_formula(rng, data),
@@ -545,6 +619,14 @@ def gen_matrix_case(rng, tier):
         cluster=rng.random() < 0.3,
         mat=rng.choice(["pandas", "pandas", "pandas", "narwhals"]),
     )
+    # every output type of the materializer, every supported input container
+    if c["mat"] == "narwhals" and rng.random() < 0.25:
+        c["output"] = "narwhals"
+    if rng.random() < 0.15:
+        set_container(rng, c)
+    if rng.random() < 0.12:
+        set_prior(rng, c)
+    return c
 
 
 def gen_columns_case(rng):
@@ -589,6 +671,278 @@ def gen_badname_case(rng):
                 efr=rng.random() < 0.5, output="pandas", cluster=False, mat="pandas")
 
 
+# ----------------------------------------------------------------------------- factor values of any shape
+#
+# Python-expression factors whose value is NOT a single column: nested dicts, dicts with reserved `__` keys, data
+# frames, 2-d arrays with and without `column_names`, `FactorValues` dicts with their own format strings, drop field and
+# `spans_intercept`, pre-encoded values, `None`. `fn` is what the formula calls (through the context); `sem` is the
+# oracle's independent statement of which columns the factor denotes: a leaf is an array, a dict node is
+# ("d", format template, [(key, node) ...]) AFTER the reserved keys have been left out. `top` gives the rank-reduction
+# attributes of the factor (spans_intercept, drop key, reduced format template).
+
+DEFAULT_FORMAT = "{name}[{field}]"
+
+
+def _arr(x):
+    return numpy.asarray(x.to_numpy() if hasattr(x, "to_numpy") else x, dtype=float)
+
+
+def _FV(*a, **k):
+    from formulaic.materializers.types import FactorValues
+
+    return FactorValues(*a, **k)
+
+
+def D(items, fmt=DEFAULT_FORMAT):
+    return ("d", fmt, items)
+
+
+SHAPES = {
+    "nest": dict(fn=lambda x: {"a": {"p": x, "q": x * x}, "b": x + 1},
+                 sem=lambda x: D([("a", D([("p", x), ("q", x * x)])), ("b", x + 1)])),
+    "deep": dict(fn=lambda x: {"k": {"i": {"u": _arr(x), "v": _arr(x) * 2}}, 7: _arr(x) - 1},
+                 sem=lambda x: D([("k", D([("i", D([("u", x), ("v", x * 2)]))])), (7, x - 1)])),
+    "hid": dict(fn=lambda x: {"u": x, "__v": x * 3, "w": {"__z": x, "t": x * 2}, "__": x},
+                sem=lambda x: D([("u", x), ("w", D([("t", x * 2)]))])),
+    "frame": dict(fn=lambda x: pandas.DataFrame({"u": _arr(x), 3: 2 * _arr(x)}),
+                  sem=lambda x: D([("u", x), (3, 2 * x)]), na="ignore"),
+    "arr": dict(fn=lambda x: numpy.stack([_arr(x), _arr(x) * _arr(x), _arr(x) + 1], axis=1),
+                sem=lambda x: D([(0, x), (1, x * x), (2, x + 1)])),
+    "arrn": dict(fn=lambda x: _FV(numpy.stack([_arr(x), _arr(x) * _arr(x)], axis=1), column_names=("lin", "sq")),
+                 sem=lambda x: D([("lin", x), ("sq", x * x)])),
+    "fmt": dict(fn=lambda x: _FV({"a": _arr(x), "b": 2 * _arr(x)}, format="{name}<{field}>"),
+                sem=lambda x: D([("a", x), ("b", 2 * x)], "{name}<{field}>")),
+    "inner": dict(fn=lambda x: {"g": _FV({"p": _arr(x), "q": _arr(x) + 2}, format="{field}@{name}"), "h": _arr(x)},
+                  sem=lambda x: D([("g", D([("p", x), ("q", x + 2)], "{field}@{name}")), ("h", x)])),
+    "same": dict(fn=lambda x: {1: _arr(x), "1": 2 * _arr(x), "z": _arr(x) - 2},
+                 sem=lambda x: D([(1, x), ("1", 2 * x), ("z", x - 2)])),
+    "pre": dict(fn=lambda x: _FV({"a": _arr(x), "__b": 2 * _arr(x)}, encoded=True, kind="numerical"),
+                sem=lambda x: D([("a", x), ("__b", 2 * x)]), no_sparse=True),
+    "span": dict(fn=lambda x: _FV({"a": _arr(x), "b": 2 * _arr(x), "c": _arr(x) + 1}, kind="numerical", spans_intercept=True,
+                                  drop_field="a", format_reduced="{name}<R.{field}>"),
+                 sem=lambda x: D([("a", x), ("b", 2 * x), ("c", x + 1)]), top=dict(spans=True, drop="a", fmtr="{name}<R.{field}>")),
+    "none": dict(fn=lambda x: None, sem=lambda x: None),
+    # a dict of CATEGORICAL columns: every leaf goes through `_encode_categorical`, so the encoded value is a dict of
+    # dicts that carry the metadata of the contrast coding; the argument is a categorical data column
+    "catd": dict(fn=lambda a: _FV({"u": a, "w": a}, kind="categorical"), arg="cat", sem=None),
+}
+# shapes on which `_encode_evaled_factor` must raise (malformed stream `shape-error`): class expected by the model
+ERROR_SHAPES = {
+    "arr3": dict(fn=lambda x: numpy.zeros((len(_arr(x)), 2, 2)), na="ignore"),
+    "arrshort": dict(fn=lambda x: _FV(numpy.stack([_arr(x)] * 3, axis=1), column_names=("a", "b"))),
+    "nodrop": dict(fn=lambda x: _FV({"a": _arr(x), "b": _arr(x) + 1}, kind="numerical", spans_intercept=True)),
+    "baddrop": dict(fn=lambda x: _FV({"a": _arr(x), "b": _arr(x) + 1}, kind="numerical", spans_intercept=True, drop_field="zz")),
+}
+for _k, _v in list(SHAPES.items()) + list(ERROR_SHAPES.items()):
+    CONTEXT[_k] = _v["fn"]
+
+# stateful transforms with several output columns (values are not dyadic: compared with relative tolerance)
+TRANSFORM_ATOMS = ["poly({v}, 2)", "poly({v}, 3)", "bs({v}, df=4)"]
+INEXACT_CALLS = ("poly(", "bs(")
+
+
+def shape_of(expr):
+    """normalised factor expression `name(v)` of a shaped atom -> (name, v) | None"""
+    for k in list(SHAPES) + list(ERROR_SHAPES):
+        if expr.startswith(k + "(") and expr.endswith(")"):
+            return k, expr[len(k) + 1 : -1]
+    return None
+
+
+def oflat(name, node, fmt_top=None):
+    """the oracle's own flattening: [(column name, array)] of a semantics tree (dict update semantics for equal names)"""
+    if node is None:
+        return []
+    if not isinstance(node, tuple):
+        return [(name, numpy.asarray(node, dtype=float))]
+    _, fmt, items = node
+    fmt = fmt_top or fmt
+    out = {}
+    for k, sub in items:
+        out.update(dict(oflat(fmt.format(name=name, field=k), sub)))
+    return list(out.items())
+
+
+def shape_encoding(expr, data, reduced=False):
+    """[(name, array)] the shaped factor `expr` denotes (full, or reduced when it spans the intercept) | None"""
+    sh = shape_of(expr)
+    if sh is not None and sh[0] == "catd" and sh[1] in data["cat"]:
+        ci = data["cat"][sh[1]]
+        vals = [ci["levels"][i] for i in ci["codes"]]
+        inner = D([(lv, numpy.array([1.0 if v == lv else 0.0 for v in vals])) for lv in _levels(ci)])
+        return oflat(expr, D([("u", inner), ("w", inner)]))
+    if sh is None or sh[0] not in SHAPES or sh[1] not in data["num"]:
+        return None
+    x = numpy.array([ffloat(v) for v in data["num"][sh[1]]])
+    node = SHAPES[sh[0]]["sem"](x)
+    top = SHAPES[sh[0]].get("top")
+    if reduced and top and top["spans"] and node is not None:
+        node = ("d", node[1], [(k, v) for k, v in node[2] if k != top["drop"]])
+        return oflat(expr, node, fmt_top=top.get("fmtr"))
+    return oflat(expr, node)
+
+
+def set_container(rng, c):
+    """hand the data over as one of the other supported input types (a record array has no categorical dtype: its
+    text columns arrive as objects, so the case declares no categories)"""
+    c["container"] = rng.choice(["dict", "recarray"] if c["mat"] == "pandas" else ["nw"])
+    if c["container"] == "recarray":
+        for ci in c["data"]["cat"].values():
+            ci["declared"] = False
+
+
+def set_prior(rng, c):
+    """an earlier call on the same materializer instance: a formula over the same data (sharing factors with the real
+    one more often than not), another output type and rank setting"""
+    outs = ["pandas", "numpy", "sparse"] + (["narwhals"] if c["mat"] == "narwhals" else [])
+    parts = c["formula"].split(" + ")
+    formula = " + ".join(rng.sample(parts, rng.randint(1, len(parts)))) if rng.random() < 0.7 else gen_formula(rng, c["data"])
+    c["prior"] = dict(formula=formula, efr=rng.random() < 0.5, output=rng.choice([o for o in outs if o != c["output"]] or outs))
+
+
+def gen_shaped_matrix_case(rng, tier):
+    """a matrix case in which at least one term uses a factor that is not a single column"""
+    maxrows = 6 if tier == "quick" else 25
+    # poly / bs need enough distinct values (their own preconditions are C12/C13's business): when they are used the
+    # frame has 5+ rows and the transformed column holds distinct values
+    tvar = "x" if rng.random() < 0.25 else None
+    data = gen_data(rng, rng.randint(5, max(7, maxrows)) if tvar else rng.randint(1, maxrows))
+    if tvar:
+        data["num"]["x"] = [fstr(v) for v in rng.sample(range(-6, 20), data["nrows"])]
+    ids = [n for n in sorted(data["num"]) if n.isidentifier()]
+    cats = sorted(data["cat"])
+    nterms = rng.randint(1, 4)
+    terms, seen, na, no_sparse = [], set(), None, False
+    for i in range(nterms):
+        atoms = []
+        for j in range(rng.choice([1, 1, 2, 2, 3])):
+            r = rng.random()
+            if j == 0 and (i == 0 or r < 0.6):
+                if tvar and rng.random() < 0.6:
+                    a = rng.choice(TRANSFORM_ATOMS).format(v=tvar)
+                else:
+                    k = rng.choice(list(SHAPES))
+                    if SHAPES[k].get("arg") == "cat" and not cats:
+                        k = "nest"
+                    a = f"{k}({rng.choice(cats if SHAPES[k].get('arg') == 'cat' else ids)})"
+                    na = SHAPES[k].get("na", na)
+                    no_sparse = no_sparse or SHAPES[k].get("no_sparse", False)
+            else:
+                a = gen_atom(rng, data, atoms)
+            if a not in atoms:
+                atoms.append(a)
+        if frozenset(atoms) in seen:
+            continue
+        seen.add(frozenset(atoms))
+        for lit in rng.sample(LITERALS, rng.choice([0, 0, 0, 1, 2])):
+            atoms.insert(rng.randrange(len(atoms) + 1), lit)
+        terms.append(":".join(atoms))
+    icpt = rng.choice(["", "", "0 + ", "1 + "])
+    if rng.random() < 0.04:
+        # a matrix without any column: no term at all, or only terms none of whose factors has values
+        icpt, terms, na, no_sparse = "0", [f"none({rng.choice(ids)})" for _ in range(rng.choice([0, 1]))], None, False
+        if terms and rng.random() < 0.5:
+            terms[0] += f":none({rng.choice(ids)})"
+        icpt += " + " if terms else ""
+    mat = rng.choice(["pandas", "pandas", "narwhals"])
+    outs = ["pandas", "numpy"] + ([] if no_sparse else ["sparse"]) + (["narwhals"] if mat == "narwhals" else [])
+    c = dict(kind="matrix", data=data, formula=icpt + " + ".join(terms or ([] if icpt == "0" else ["1"])), efr=rng.random() < 0.5,
+             output=rng.choice(outs), cluster=rng.random() < 0.3, mat=mat, shaped=True)
+    if na:
+        c["na"] = na
+    if rng.random() < 0.3:
+        set_container(rng, c)
+    if rng.random() < 0.12 and not na:
+        set_prior(rng, c)
+    return c
+
+
+def gen_shape_error_case(rng, tier):
+    """malformed stream: a factor on which `_encode_evaled_factor` raises (model and code must raise the same class)"""
+    data = gen_data(rng, rng.randint(1, 5))
+    ids = [n for n in sorted(data["num"]) if n.isidentifier()]
+    k = rng.choice(list(ERROR_SHAPES))
+    bad = f"{k}({rng.choice(ids)})"
+    if rng.random() < 0.5 and data["cat"]:
+        bad = rng.choice([bad + ":" + rng.choice(sorted(data["cat"])), rng.choice(sorted(data["cat"])) + ":" + bad])
+    parts = gen_formula(rng, data).split(" + ")
+    parts.insert(rng.randint(1 if parts[0] in ("0", "1", "-1") else 0, len(parts)), bad)
+    c = dict(kind="shape-error", data=data, formula=" + ".join(parts), efr=rng.random() < 0.7,
+             output=rng.choice(["pandas", "numpy", "sparse"]), cluster=False, mat=rng.choice(["pandas", "narwhals"]), shaped=True)
+    if ERROR_SHAPES[k].get("na"):
+        c["na"] = ERROR_SHAPES[k]["na"]
+    return c
+
+
+# --- direct stream on `_encode_evaled_factor`: random value trees with random metadata
+
+ENC_KEYS = ["a", "b", "p", "q", 0, 1, "1", 2, "__h", "__", "x y", "T.a", "_u"]
+ENC_FORMATS = ["{name}[{field}]", "{name}[{field}]", "{name}<{field}>", "{field}@{name}", "{name}.{field}", "{name}",
+               "{field}", "{name}[T.{field}]"]
+
+
+def gen_enc_meta(rng, keys, top):
+    md = {}
+    if rng.random() < 0.6:
+        md["format"] = rng.choice(ENC_FORMATS)
+    if rng.random() < 0.4:
+        md["format_reduced"] = rng.choice(ENC_FORMATS + [""])
+    if rng.random() < 0.15:
+        md["reduced"] = True
+    if rng.random() < (0.5 if top else 0.2):
+        md["spans_intercept"] = True
+    r = rng.random()
+    if r < 0.45 and keys:
+        md["drop_field"] = rng.choice(keys)
+    elif r < 0.55:
+        md["drop_field"] = "zz"
+    if top and rng.random() < 0.15:
+        md["encoded"] = True
+    return md
+
+
+def gen_enc_tree(rng, depth, nrows, top=False):
+    if depth == 0 or (not top and rng.random() < 0.5):
+        return {"c": [fstr(rng.randint(-3, 4)) for _ in range(nrows)]}
+    keys = rng.sample(ENC_KEYS, rng.choice([0, 1, 1, 2, 2, 3, 4]))
+    node = {"d": [[k, gen_enc_tree(rng, depth - 1, nrows)] for k in keys], "m": None}
+    if top or rng.random() < 0.4:
+        node["m"] = gen_enc_meta(rng, keys, top)
+    return node
+
+
+def gen_encode_case(rng):
+    nrows = rng.randint(1, 4)
+    col = lambda: [fstr(rng.randint(-3, 4)) for _ in range(nrows)]
+    r = rng.random()
+    if r < 0.08:
+        top = {"t": "col", "c": col(), "m": gen_enc_meta(rng, [], True)}
+    elif r < 0.6:
+        top = dict(gen_enc_tree(rng, 3, nrows, top=True), t="dict")
+    elif r < 0.72:
+        keys = rng.sample(ENC_KEYS, rng.randint(0, 3))
+        top = {"t": "frame", "cols": [[k, col()] for k in keys], "m": gen_enc_meta(rng, keys, True)}
+    elif r < 0.95:
+        n = rng.randint(0, 3)
+        md = gen_enc_meta(rng, list(range(n)), True)
+        q = rng.random()
+        if q < 0.5:
+            names = rng.sample(ENC_KEYS, n)
+            md["column_names"] = names
+            if names and rng.random() < 0.4:
+                md["drop_field"] = rng.choice(names)
+        elif q < 0.65:
+            md["column_names"] = rng.sample(ENC_KEYS, max(0, n - 1))  # too short: IndexError (or none at all when empty)
+        elif q < 0.75:
+            md["column_names"] = rng.sample(ENC_KEYS, n + 1)
+        top = {"t": "arr2", "cols": [col() for _ in range(n)], "m": md}
+    else:
+        top = {"t": "arrN", "m": gen_enc_meta(rng, [], True)}
+    return dict(kind="encode", nrows=nrows, expr=rng.choice(["f", "g(x)", "h[0]", "a:b"]), top=top,
+                output=rng.choice(["pandas", "numpy", "sparse"]), mat=rng.choice(["pandas", "narwhals"]))
+
+
+
 def cases(rng, tier):
     n = {"quick": 900, "thorough": 9000, "search": 200}[tier]
     for i in range(n):
@@ -597,6 +951,12 @@ def cases(rng, tier):
         yield gen_typed_matrix_case(rng, tier)
     for i in range(max(4, n // 45)):
         yield gen_wrap_matrix_case(rng, tier)
+    for i in range(n // 3):
+        yield gen_shaped_matrix_case(rng, tier)
+    for i in range(max(6, n // 30)):
+        yield gen_shape_error_case(rng, tier)
+    for i in range(n // 3):
+        yield gen_encode_case(rng)
     for i in range(n // 4):
         yield gen_columns_case(rng)
     for i in range(n // 4):
@@ -614,23 +974,155 @@ def _max_literals(formula):
 
 def describe(c):
     if c["kind"] == "matrix":
-        typed = ",wrap" if c.get("wrap") else ",typed" if c["data"].get("dtype") else ""
+        typed = ",wrap" if c.get("wrap") else ",typed" if c["data"].get("dtype") else ",shaped" if c.get("shaped") else ""
+        typed += "," + c["container"] if c.get("container") else ""
+        typed += ",after-prior-call" if c.get("prior") else ""
         return f"matrix{typed},{c['mat']},{c['output']},efr={int(c['efr'])},maxlit={_max_literals(c['formula'])}"
+    if c["kind"] == "encode":
+        return f"encode,{c['top']['t']},{c['mat']},{c['output']}"
     return c["kind"]
 
 
 def nontrivial(c):
+    if c["kind"] == "encode":
+        return c["top"]["t"] != "col"
     return c["kind"] == "matrix" and ":" in c["formula"]
 
 
 # ----------------------------------------------------------------------------- impl
 
 
+def _container(c, df):
+    """the object handed to the materializer: the frame itself, a dict of columns (of scalars for a one-row frame
+    whose text columns need no dtype), a numpy record array, or a narwhals wrapper (the registered / supported input types)"""
+    kind = c.get("container", "frame")
+    if kind == "dict":
+        # (a scalar keeps neither a categorical dtype nor the object dtype of a non-text label)
+        declared = any(isinstance(df[k].dtype, pandas.CategoricalDtype) or (df[k].dtype == object and not isinstance(df[k].iloc[0], str))
+                       for k in df.columns)
+        if len(df) == 1 and not declared:
+            return {k: df[k].iloc[0] for k in df.columns}  # all scalars: a one-row frame
+        return {k: df[k] for k in df.columns}
+    if kind == "recarray":
+        return df.to_records(index=False)
+    if kind == "nw":
+        import narwhals.stable.v1 as nw
+
+        return nw.from_native(df)
+    return df
+
+
 def _materializer(c, df):
     from formulaic.materializers import NarwhalsMaterializer, PandasMaterializer
 
     cls = PandasMaterializer if c["mat"] == "pandas" else NarwhalsMaterializer
-    return cls(df, context=CONTEXT)
+    return cls(_container(c, df), context=CONTEXT)
+
+
+# --- serialisation of evaluated factor values for the model of `_encode_evaled_factor` (Model/FactorEncode.lean)
+
+EMPTY_RAW = {"t": "val", "v": {"c": []}}
+
+
+def meta_json(md):
+    return {
+        "cn": None if not md.column_names else [field_json(k) for k in md.column_names],
+        "fmt": parse_fmt(md.format) or [],
+        "enc": bool(md.encoded),
+        "hasenc": md.encoder is not None,
+        "spans": bool(md.spans_intercept),
+        "drop": None if md.drop_field is None else field_json(md.drop_field),
+        "red": bool(md.reduced),
+        "fmtr": parse_fmt(md.format_reduced),
+    }
+
+
+def _unwrap(v):
+    from formulaic.materializers.types import FactorValues
+
+    return v.__wrapped__ if isinstance(v, FactorValues) else v
+
+
+def val_json(v):
+    """a column, or a (nested) dict with the metadata of each `FactorValues` level"""
+    md = getattr(v, "__formulaic_metadata__", None)
+    w = _unwrap(v)
+    if isinstance(w, dict):
+        return {"d": [[field_json(k), val_json(x)] for k, x in w.items()], "m": None if md is None else meta_json(md)}
+    return {"c": [fstr(x) for x in col_values(w)]}
+
+
+def raw_json(v):
+    """`factor.values` as `as_columns` will see it"""
+    import scipy.sparse as sp
+
+    w = _unwrap(v)
+    if w is None:
+        return EMPTY_RAW
+    if isinstance(w, pandas.DataFrame):
+        return {"t": "frame", "cols": [[field_json(k), [fstr(x) for x in col_values(w.iloc[:, i])]] for i, k in enumerate(w.columns)]}
+    if isinstance(w, numpy.ndarray) and w.ndim > 2:
+        return {"t": "arrN"}
+    if (isinstance(w, numpy.ndarray) and w.ndim == 2) or sp.issparse(w):
+        a = numpy.asarray(w.toarray() if sp.issparse(w) else w, dtype=float)
+        return {"t": "arr2", "cols": [[fstr(x) for x in a[:, i]] for i in range(a.shape[1])]}
+    return {"t": "val", "v": val_json(v)}
+
+
+def cat_json(ci):
+    """a categorical data column as its categories (declared, else the sorted distinct values) and per-row codes"""
+    lv = _levels(ci)
+    idx = {repr(l): i for i, l in enumerate(lv)}
+    return {"t": "cat", "levels": [field_json(l) for l in lv], "codes": [idx[repr(ci["levels"][k])] for k in ci["codes"]]}
+
+
+def _cached_encoding(m, ef, spec, r):
+    """the object `_encode_evaled_factor` keeps in `encoded_cache` for reduced_rank=r (an encoder the model does not
+    re-implement: `C(...)` closures, `encode_contrasts` behind `_encode_categorical`)"""
+    try:
+        m._encode_evaled_factor(ef, spec, [], reduced_rank=r)
+    except Exception:
+        pass  # the cache entry is written before the steps that may raise (drop field, flattening)
+    k = ef.expr
+    if k in m.encoded_cache:
+        enc = m.encoded_cache[k]
+    elif (k, r) in m.encoded_cache:
+        enc = m.encoded_cache[(k, r)]
+    else:
+        return None
+    if isinstance(enc, tuple):
+        enc = enc[0]
+    return val_json(enc)
+
+
+def rich_factors(m, spec, c):
+    """every entry of `factor_cache` with what `_encode_evaled_factor` looks at. Numerical factors: the evaluated
+    values and their metadata only (the model encodes them itself). Plain categorical data columns: categories and
+    codes from the CASE (the model computes the dummy coding itself). Anything else: the cached encoder output."""
+    from formulaic.parser.types import Factor
+
+    cats = c.get("data", {}).get("cat", {})
+    out = []
+    for expr, ef in m.factor_cache.items():
+        md = ef.metadata
+        raw = ef.values.__wrapped__
+        fj = {"expr": expr, "present": raw is not None, "kind": md.kind.value, "md": meta_json(md), "raw": EMPTY_RAW, "ext": None}
+        if md.kind is Factor.Kind.CONSTANT:
+            fj["value"] = fstr(raw)
+        elif raw is None:
+            pass
+        elif (md.kind is Factor.Kind.CATEGORICAL and md.encoder is None and not md.encoded
+              and ef.factor.eval_method.value == "lookup" and expr in cats):
+            fj["raw"] = cat_json(cats[expr])
+        elif not md.encoded and (md.encoder is not None or md.kind is not Factor.Kind.NUMERICAL):
+            # an encoder the model does not re-implement: its cached results (the raw values are not looked at)
+            full, red = _cached_encoding(m, ef, spec, False), _cached_encoding(m, ef, spec, True)
+            if full is not None and red is not None:
+                fj["ext"] = {"full": full, "reduced": red}
+        else:
+            fj["raw"] = raw_json(ef.values)
+        out.append(fj)
+    return out
 
 
 def _enc_json(m, ef, spec, r):
@@ -670,8 +1162,9 @@ def as_dict(c):
     return c["mat"] == "narwhals" and c["output"] != "sparse"
 
 
-def observe(m, mm, output, nrows, collapse=False):
-    """canonical observables of one materialisation"""
+def observe(m, mm, output, nrows, collapse=False, flat=True):
+    """canonical observables of one materialisation (`flat=False`: leave out the flat per-factor encodings that only
+    the model of `Model/Materialize.lean` reads; they cannot express nested dicts)"""
     from formulaic.parser.types import Factor
 
     spec = mm.model_spec
@@ -688,7 +1181,11 @@ def observe(m, mm, output, nrows, collapse=False):
         }
         for s in spec.structure
     ]
-    if output == "pandas":
+    if output == "narwhals":
+        w = mm.__wrapped__
+        names = [str(x) for x in w.columns]
+        arr = numpy.asarray(w.to_numpy()).astype(float).reshape((len(w), len(names)))
+    elif output == "pandas":
         names = [str(x) for x in mm.columns]
         arr = numpy.asarray(mm).astype(float).reshape((len(mm), len(names)))
     else:
@@ -703,7 +1200,7 @@ def observe(m, mm, output, nrows, collapse=False):
         out["columns"] = []
         out["shape_mismatch"] = f"{arr.shape} vs {len(names)} names"
     factors = []
-    for expr, ef in m.factor_cache.items():
+    for expr, ef in (m.factor_cache.items() if flat else ()):
         md = ef.metadata
         kind = md.kind.value
         raw = ef.values.__wrapped__
@@ -737,18 +1234,38 @@ def observe(m, mm, output, nrows, collapse=False):
 
 
 def impl_matrix(c):
+    from formulaic.model_spec import ModelSpec
+
     df = make_frame(c["data"])
     m = _materializer(c, df)
+    kw = dict(ensure_full_rank=c["efr"], output=c["output"], cluster_by="numerical_factors" if c["cluster"] else "none")
+    if c.get("na"):
+        kw["na_action"] = c["na"]
+    if c.get("prior"):
+        # history: the SAME materializer instance has already produced another matrix (other formula over the same
+        # factors, other output type / rank setting); its caches must not leak into this call
+        pr = c["prior"]
+        try:
+            m.get_model_matrix(pr["formula"], ensure_full_rank=pr["efr"], output=pr["output"],
+                               **({"na_action": c["na"]} if c.get("na") else {}))
+        except Exception:
+            pass
     try:
-        mm = m.get_model_matrix(
-            c["formula"],
-            ensure_full_rank=c["efr"],
-            output=c["output"],
-            cluster_by="numerical_factors" if c["cluster"] else "none",
-        )
+        mm = m.get_model_matrix(c["formula"], **kw)
     except Exception as e:
-        return {"error": type(e).__name__, "msg": str(e)[:200]}
-    return observe(m, mm, c["output"], c["data"]["nrows"], collapse=as_dict(c))
+        out = {"error": type(e).__name__, "msg": str(e)[:200]}
+        if c.get("shaped"):
+            # what the model needs to predict the same exception: the term list and the factors evaluated so far
+            try:
+                spec = ModelSpec.from_spec(c["formula"], **kw)
+                out["terms"] = [[{"x": f.expr, "m": f.eval_method.value} for f in t.factors] for t in spec.formula]
+                out["rfactors"] = rich_factors(m, spec, c)
+            except Exception as e2:
+                out["msg"] += f" [no factors: {type(e2).__name__}]"
+        return out
+    o = observe(m, mm, c["output"], c["data"]["nrows"], collapse=as_dict(c), flat=not c.get("shaped"))
+    o["rfactors"] = rich_factors(m, mm.model_spec, c)
+    return o
 
 
 class _Spec:
@@ -798,10 +1315,67 @@ def impl_simplify(c):
     return {"sts": [{"factors": [[sf.factor.expr, bool(sf.reduced)] for sf in st.factors], "scale": fstr(st.scale)} for st in out]}
 
 
+def build_enc_value(top, nrows):
+    """the Python object described by an `encode` case: FactorValues(<col | dict | DataFrame | ndarray>, kind="numerical", **metadata)"""
+
+    def arr(col):
+        return numpy.array([ffloat(x) for x in col])
+
+    def node(d):
+        if "c" in d:
+            return arr(d["c"])
+        inner = {k: node(v) for k, v in d["d"]}
+        return inner if d.get("m") is None else _FV(inner, **mdkw(d["m"]))
+
+    def mdkw(md):
+        kw = dict(md)
+        if "column_names" in kw:
+            kw["column_names"] = tuple(kw["column_names"])
+        return kw
+
+    t = top["t"]
+    if t == "col":
+        v = arr(top["c"])
+    elif t == "dict":
+        v = {k: node(x) for k, x in top["d"]}
+    elif t == "frame":
+        v = pandas.DataFrame({i: arr(col) for i, (k, col) in enumerate(top["cols"])}, index=range(nrows))
+        v.columns = pandas.Index([k for k, _ in top["cols"]], dtype=object)
+    elif t == "arr2":
+        v = numpy.stack([arr(col) for col in top["cols"]], axis=1) if top["cols"] else numpy.zeros((nrows, 0))
+    else:
+        v = numpy.zeros((nrows, 2, 2))
+    return _FV(v, kind="numerical", **mdkw(top.get("m") or {}))
+
+
+def impl_encode(c):
+    from formulaic.materializers import NarwhalsMaterializer, PandasMaterializer
+    from formulaic.materializers.types import EvaluatedFactor
+    from formulaic.model_spec import ModelSpec
+    from formulaic.parser.types import Factor
+
+    cls = PandasMaterializer if c["mat"] == "pandas" else NarwhalsMaterializer
+    m = cls(pandas.DataFrame({"z": numpy.arange(c["nrows"], dtype=float)}))
+    values = build_enc_value(c["top"], c["nrows"])
+    ef = EvaluatedFactor(Factor(c["expr"]), values)
+    spec = ModelSpec(formula=[], output=c["output"])
+    out = {"factor": {"expr": c["expr"], "present": True, "kind": "numerical", "md": meta_json(ef.metadata),
+                      "raw": raw_json(values), "ext": None}}
+    for key, r in (("full", False), ("reduced", True)):
+        try:
+            d = m._encode_evaled_factor(ef, spec, [], reduced_rank=r)
+            out[key] = [[str(k), [fstr(x) for x in col_values(v)]] for k, v in d.items()]
+        except Exception as e:
+            out[key] = {"error": type(e).__name__, "msg": str(e)[:120]}
+    return out
+
+
 def impl(c):
     k = c["kind"]
-    if k in ("matrix", "badname"):
+    if k in ("matrix", "badname", "shape-error"):
         return impl_matrix(c)
+    if k == "encode":
+        return impl_encode(c)
     if k == "columns":
         return impl_columns(c)
     if k == "simplify":
@@ -831,14 +1405,36 @@ def matrix_request(c, o, truncate=None):
     )
 
 
+def reserved_levels(c):
+    """does a categorical column of the case have a level label starting with `__`? (The flat model of
+    Model/Materialize.lean still filters such fields while flattening, as the code did before fix f846f43; it is shared
+    with other properties and not edited here, so the cross-check against it is left out for these cases. The model
+    of Model/FactorEncode.lean drops reserved keys where the code does: in `map_dict`, before encoding.)"""
+    return any(isinstance(l, str) and l.startswith("__") for ci in c["data"]["cat"].values() for l in ci["levels"])
+
+
 def request(c, o):
     k = c["kind"]
     if "harness_exception" in o:
         return dict(op="noop")
-    if k == "matrix":
-        if "error" in o:
+    if k in ("matrix", "shape-error"):
+        if "rfactors" not in o or "terms" not in o:
             return dict(op="noop")
-        return matrix_request(c, o)
+        # the model of the whole pipeline over factor values of any shape; for cases whose encodings are flat the
+        # model of Model/Materialize.lean (the one C03 also runs) is evaluated on the same case as a cross-check
+        return dict(
+            op="nmatrix",
+            nrows=c["data"]["nrows"],
+            efr=c["efr"],
+            cluster=c["cluster"],
+            variant="fast",
+            asdict=as_dict(c),
+            terms=[[f["x"] for f in t] for t in o["terms"]],
+            factors=o["rfactors"],
+            flat=matrix_request(c, o) if ("error" not in o and not c.get("shaped") and not reserved_levels(c)) else None,
+        )
+    if k == "encode":
+        return dict(op="encode", factor=o["factor"])
     if k == "badname":
         # the model is given the term list with an empty factor cache: `factor_cache[expr]` must fail
         return dict(op="matrix", nrows=1, efr=c["efr"], cluster=False, variant="fast", asdict=True,
@@ -860,7 +1456,7 @@ def _values_agree(a: str, b: str, inexact: bool):
 
 
 def is_inexact(c):
-    return any(s in c.get("formula", "") for s in INEXACT)
+    return any(s in c.get("formula", "") for s in INEXACT + INEXACT_CALLS)
 
 
 def agree_matrix(c, o, m, values=True, cells=None):
@@ -906,21 +1502,47 @@ def agree(c, o, m):
     if "harness_exception" in o:
         return None  # reported by the oracle
     k = c["kind"]
-    if k == "matrix":
+    if k == "shape-error" and ("error" in o or "error" in m):
+        if "rfactors" not in o and "error" in o:
+            return f"implementation raised {o['error']} before the factors were evaluated: {o.get('msg', '')}"
+        oe, me = o.get("error"), m.get("error")
+        return None if oe == me else f"malformed factor: implementation raised {oe} ({o.get('msg', '')}), model {me}"
+    if k in ("matrix", "shape-error"):
         if "error" in o:
             return None  # reported by the oracle
         cells = []
         why = agree_matrix(c, o, m, cells=cells)
+        if why is None and m.get("flat") is not None:
+            why = agree_matrix(c, o, m["flat"], cells=cells)
+            why = None if why is None else "flat model (Model/Materialize.lean): " + why
         if why is not None:
             # for classify(): WHAT the model disagrees about (the driver calls classify with the oracle's reason when
             # both the oracle and the correspondence object, so a disagreement must not hide behind a known finding)
             o["_corr"] = {"cells": cells} if cells else {"other": why}
         return why
+    if k == "encode":
+        for key in ("full", "reduced"):
+            a, b = m.get(key), o[key]
+            ae = a.get("error") if isinstance(a, dict) else None
+            be = b.get("error") if isinstance(b, dict) else None
+            if ae or be:
+                if ae != be:
+                    return f"_encode_evaled_factor({key}): implementation {be or 'returned ' + str([x[0] for x in b])} ({b.get('msg', '') if be else ''}), model {ae or 'returned ' + str([x[0] for x in a])}"
+                continue
+            if [x[0] for x in a] != [x[0] for x in b]:
+                return f"_encode_evaled_factor({key}): names differ: model {[x[0] for x in a]} vs impl {[x[0] for x in b]}"
+            for x, y in zip(a, b):
+                if [Fraction(v) for v in x[2]] != [Fraction(v) for v in y[1]]:
+                    return f"_encode_evaled_factor({key}): column {y[0]}: model {x[2]} vs impl {y[1]}"
+        return None
     if k == "badname":
         if o.get("error") == "FactorEvaluationError" and m.get("error") == "KeyError":
             return None
         return f"unknown column: impl {o.get('error', 'no error')} vs model {m.get('error', 'no error')}"
     if k == "columns":
+        for a, b in (("base", "nbase"), ("fast", "nfast")):
+            if m.get(a) != m.get(b):
+                return f"the two models of _get_columns_for_term differ ({a} vs {b}): {m.get(a)} vs {m.get(b)}"
         side = m["base"] if c["cls"] == "base" else m["fast"]
         if "error" in o or (isinstance(side, dict) and "error" in side):
             oe = o.get("error")
@@ -977,7 +1599,10 @@ def _levels(cinfo, drop_unused=False):
     return present
 
 
-def _full_encoding(expr, data, mat="pandas"):
+def _full_encoding(expr, data, mat="pandas", reduced=False):
+    se = shape_encoding(expr, data, reduced)
+    if se is not None:
+        return ("cat" if (shape_of(expr) or ("",))[0] == "catd" else "num"), se
     sem = atom_semantics(expr, data)
     if sem is None:
         return None
@@ -1016,21 +1641,33 @@ def oracle_matrix(c, o, excuse=frozenset()):
         if c["cluster"]:
             groups = {}
             for t in order:
-                key = tuple(f["x"] for f in t if f["m"] != "literal" and (_full_encoding(f["x"], data, c["mat"]) or ("?",))[0] == "num")
+                key = tuple(f["x"] for f in t if f["m"] != "literal" and (
+                    f["x"].startswith(INEXACT_CALLS) or (_full_encoding(f["x"], data, c["mat"]) or ("?",))[0] == "num"))
                 groups.setdefault(key, []).append(t)
             order = [t for g in groups.values() for t in g]
         expect = []
         for t in order:
             scale = 1.0
             facs = []
+            present = 0
             for f in t:
                 if f["m"] == "literal":
                     scale *= float(f["x"])
+                    present += 1
                     continue
+                if (shape_of(f["x"]) or ("",))[0] == "none":
+                    continue  # a factor that evaluates to None takes no part in the term
+                present += 1
                 enc = _full_encoding(f["x"], data, c["mat"])
+                if enc is None and f["x"].startswith(INEXACT_CALLS) and f["x"] in o["flat"]:
+                    # a stateful transform (poly, bs): its values are the business of C12/C13; here its columns are
+                    # taken as evaluated and only their place in the Kronecker product is checked
+                    enc = ("num", [(nm, numpy.array(v)) for nm, v in o["flat"][f["x"]]])
                 if enc is None:
                     return None  # an atom this oracle has no independent semantics for
                 facs.append(enc[1])
+            if not present:
+                continue  # a term none of whose factors has values generates nothing
             if not facs:
                 expect.append(("Intercept", scale * numpy.ones(n)))
             else:
@@ -1068,10 +1705,10 @@ def oracle_matrix(c, o, excuse=frozenset()):
                 flat = o["flat"][e + ("-" if r else "")]
                 facs.append([(nm, numpy.array(v)) for nm, v in flat])
                 sem = atom_semantics(e, data)
-                if sem and sem[0] == "num":
+                if sem and sem[0] in ("num", "catd"):
                     # a numeric factor is encoded as itself: the column(s) its label names are the data column /
                     # the value of the Python expression, whatever the storage dtype and the output type
-                    want = _full_encoding(e, data, c["mat"])[1]
+                    want = _full_encoding(e, data, c["mat"], reduced=r)[1]
                     if [nm for nm, _ in want] != [nm for nm, _ in flat]:
                         return f"numeric factor {e}: encoded columns {[nm for nm, _ in flat]}, expected {[nm for nm, _ in want]}"
                     for (nm, w), (_, v) in zip(want, flat):
@@ -1125,14 +1762,93 @@ def oracle_columns(c, o):
     return None
 
 
+ENC_DEFAULTS = dict(format=DEFAULT_FORMAT, format_reduced=None, reduced=False, spans_intercept=False, drop_field=None,
+                    encoded=False, column_names=None)
+
+
+def _spec_flatten(name, items, fmt):
+    out = {}
+    for k, v in items:
+        sub = fmt.format(name=name, field=k)
+        if "c" in v:
+            out[sub] = v["c"]
+        else:
+            md = v.get("m")
+            if md is None:
+                f = DEFAULT_FORMAT  # a dict without metadata: the class default
+            else:
+                md = dict(ENC_DEFAULTS, **md)
+                f = md["format_reduced"] if (md["reduced"] and md["format_reduced"]) else md["format"]
+            out.update(_spec_flatten(sub, v["d"], f))
+    return out
+
+
+def _strip_reserved(items):
+    return [(k, v if "c" in v else dict(v, d=_strip_reserved(v["d"]))) for k, v in items
+            if not (isinstance(k, str) and k.startswith("__"))]
+
+
+def spec_encode(c, reduced):
+    """What `_encode_evaled_factor` must return for the described numerical factor, written from the documentation of
+    `FactorValuesMetadata` / `as_columns` (independently of the Lean model): an exception class name, or {name: column}."""
+    top = c["top"]
+    md = dict(ENC_DEFAULTS, **(top.get("m") or {}))
+    t = top["t"]
+    if t == "arrN":
+        return "ValueError"
+    if t == "col":
+        return {c["expr"]: top["c"]}
+    if t == "dict":
+        items = [(k, v) for k, v in top["d"]]
+    elif t == "frame":
+        items = [(k, {"c": col}) for k, col in top["cols"]]
+    else:
+        names = md["column_names"] or list(range(len(top["cols"])))
+        if len(names) < len(top["cols"]):
+            return "IndexError"
+        d = {}
+        for i, col in enumerate(top["cols"]):
+            d[names[i]] = {"c": col}
+        items = list(d.items())
+    if not md["encoded"]:
+        items = _strip_reserved(items)  # reserved keys of dict-valued factors generate no columns
+    is_reduced = md["reduced"]
+    if md["spans_intercept"] and reduced:
+        if md["drop_field"] not in [k for k, _ in items]:
+            return "KeyError"
+        items = [(k, v) for k, v in items if k != md["drop_field"]]
+        is_reduced = True
+    fmt = md["format_reduced"] if (is_reduced and md["format_reduced"]) else md["format"]
+    return _spec_flatten(c["expr"], items, fmt)
+
+
+def oracle_encode(c, o):
+    for key, r in (("full", False), ("reduced", True)):
+        want, got = spec_encode(c, r), o[key]
+        if isinstance(want, str):
+            continue  # which exception a malformed factor raises is the correspondence's business
+        if isinstance(got, dict):
+            return f"_encode_evaled_factor(reduced_rank={r}) raised {got['error']}: {got.get('msg', '')}"
+        if list(want) != [x[0] for x in got]:
+            return f"_encode_evaled_factor(reduced_rank={r}): columns {[x[0] for x in got]}, the factor's values and metadata denote {list(want)}"
+        for (nm, w), (_, g) in zip(want.items(), got):
+            if [Fraction(x) for x in w] != [Fraction(x) for x in g]:
+                return f"_encode_evaled_factor(reduced_rank={r}): column {nm} is {g}, its label denotes {w}"
+    return None
+
+
 def oracle(c, o):
     if "harness_exception" in o:
         return "harness could not run the implementation: " + o["harness_exception"]
     k = c["kind"]
     if k == "matrix":
         return oracle_matrix(c, o)
+    if k == "shape-error":
+        return None if "error" in o else oracle_matrix(c, o)
     if k == "columns":
         return oracle_columns(c, o)
+    if k == "encode":
+        return oracle_encode(c, o)
     return None
 
 
@@ -1249,18 +1965,28 @@ def classify(c, o, why):
 
 
 LEVEL_TEXT = (
-    "Proof: Lean theorems (Props/C02.lean) about the executable model of the term -> scoped terms -> columns pipeline "
-    "show, for ALL factor caches, term lists, both rank settings and both `_get_columns_for_term` variants, that every "
-    "emitted column equals the term's literal scale times the pointwise product of the encoded factor columns its "
-    "structural label names, that the intercept is scale*ones named Intercept, that the pandas/narwhals fast path equals "
-    "the base product, and that with rank reduction off each term yields the row-wise Kronecker product of the full "
-    "encodings (first factor fastest). The model is tied to the code by a differential correspondence on every run "
-    "(labels and exact values of whole matrices, numeric columns in every numpy storage dtype with full-width values "
-    "included); a data-level oracle recomputes the matrix independently. Known finding C02-F1: products of integer-dtype "
-    "columns wrap around in the narrow integer dtype (the theorems are about exact products; such cells are reported as "
-    "KNOWN-FINDING, never silently accepted)."
+    "Proof: 24 Lean theorems (Props/C02.lean) about the executable models of the term -> scoped terms -> columns pipeline. "
+    "For ALL factor caches, term lists, both rank settings, both clustering settings and both `_get_columns_for_term` "
+    "variants, and for factor values of ANY shape (column, nested dict, DataFrame, 2-d array, FactorValues with own formats / "
+    "drop field, pre-encoded): every emitted column equals the term's literal scale times the pointwise product of the encoded "
+    "leaf columns its structural label (factor, key path, rank) names, and its name is the ':'-join of the names the format "
+    "templates on those paths print - `factor[key][key]...` under the default template; the intercept is scale*ones named "
+    "Intercept; the pandas/narwhals fast path equals the base product; with rank reduction off each term yields the complete "
+    "row-wise Kronecker product of the full encodings (every column of a multi-column factor, first factor fastest); every "
+    "scoped term carries the term's literal scale. Encoder stages: a numerical factor is encoded as itself (same leaves at the "
+    "same key paths, reserved `__` keys generate nothing, the drop-field step removes exactly the drop field and switches to "
+    "format_reduced); a plain categorical column is encoded as one indicator per level in level order named factor[level], its "
+    "reduced encoding drops the first level and is named factor[T.level]. cluster_by=numerical_factors regroups the terms by "
+    "their numerical factors, groups in order of first occurrence, formula order inside a group. Columns with equal names "
+    "collapse as a Python dict does (first position, last values). The models are tied to the code by a differential "
+    "correspondence on every run (whole matrices: labels and exact values; `_encode_evaled_factor` alone on random value trees; "
+    "`_get_columns_for_term` alone; malformed factors must raise the same exception class); a data-level oracle recomputes "
+    "matrices and encodings independently. Known finding C02-F1: products of integer-dtype columns wrap around in the narrow "
+    "integer dtype (the theorems are about exact products; such cells are reported as KNOWN-FINDING, never silently accepted)."
 )
 LEVEL_NOTE = (
-    "Trusted: Lean kernel + propext/Classical.choice/Quot.sound; the hand model of base.py/pandas.py/narwhals.py "
-    "validated by correspondence; encoders (get_dummies, contrast matrices), str.format and numpy arithmetic enter as data/parameters."
+    "Trusted: Lean kernel + propext/Classical.choice/Quot.sound; the hand models of base.py / pandas.py / narwhals.py / "
+    "factor_values.py / cast.as_columns validated by correspondence; factor evaluation, encoder closures and non-default "
+    "contrasts, str.format and numpy arithmetic enter as data/parameters; default and treatment name templates are generated "
+    "from the live classes."
 )
